@@ -114,8 +114,9 @@ def tlc(work, name, module, cfg_text, files=None, simulate=None, depth=None, see
     cmd += (extra or [])
     cmd += ["-config", module + ".cfg", module + ".tla"]
     env = dict(os.environ)
-    if java_opts:
-        env["JAVA_TOOL_OPTIONS"] = java_opts
+    # (TLC's own scratch directories go below the work directory, which is removed at the end, not to /tmp)
+    jt = work.sub("jtmp")
+    env["JAVA_TOOL_OPTIONS"] = ((java_opts + " ") if java_opts else "") + "-Djava.io.tmpdir=" + jt
     rc, out, dt = run(cmd, cwd=d, env=env, timeout=timeout, check=False)
     res = {"out": out, "rc": rc, "wall": dt, "states": 0, "distinct": 0, "depth": 0, "dir": d}
     m = None
